@@ -295,7 +295,7 @@ def sampleFaithful (sections : List Bytes) (ents : List Entity) (s : Sample) : B
     | none => false
     | some sec =>
       ents.any fun e =>
-        e.sect == sec && sortLabels e.labels == s.labels &&
+        e.sect == sec && sortLabels e.labels == sortLabels s.labels &&
         (if s.name == sec then e.base == s.value
          else match e.fields.find? (·.1 == fieldKey sec s.name) with
            | some f => f.2 == s.value
@@ -303,6 +303,6 @@ def sampleFaithful (sections : List Bytes) (ents : List Entity) (s : Sample) : B
 
 /-- every entity is reported with its base sample (used for scrapes without filter) -/
 def entityReported (samples : List Sample) (e : Entity) : Bool :=
-  samples.any fun s => s.name == e.sect && s.labels == sortLabels e.labels && s.value == e.base
+  samples.any fun s => s.name == e.sect && sortLabels s.labels == sortLabels e.labels && s.value == e.base
 
 end MtxVerif.C36
